@@ -134,10 +134,14 @@ def gen_big(seed, idx):
             steps.append({"op": "lock", "conn": 2, "key": 1, "lid": l, "to": 0, "ex": 50, "cnt": cnt})
         steps.append({"op": "lock", "conn": 2, "key": 1, "lid": 100000, "to": 0, "ex": 5, "cnt": 3})   # Count 3 newcomer: refused if > 3 holds
     elif kind == 1:    # many waiters FIFO, then release one by one
-        n = rng.choice([9, 20, 135, 160])
+        n = rng.choice([9, 20, 135, 160, 300])
         steps.append({"op": "lock", "conn": 1, "key": 1, "lid": 1, "to": 0, "ex": 300, "cnt": 0})
         for i in range(n):
             steps.append({"op": "lock", "conn": 2 + i % 3, "key": 1, "lid": 10 + i, "to": rng.choice([30, 50, 100]), "ex": 300, "cnt": 0, "nodup": True})
+        if n > 150:
+            # cancel waiters that sit in the overflow part of the wait queue while its first part is still full
+            for v in rng.sample(range(145, n), 3):
+                steps.append({"op": "unlock", "conn": 1, "key": 1, "lid": 10 + v, "flag": 2})
         steps.append({"op": "unlock", "conn": 1, "key": 1, "lid": 1})
         for i in range(n // 2):
             if rng.random() < 0.2:
